@@ -80,3 +80,37 @@ def register_dtypes(reg):
 
 def _typed_lexpr(interp, name):
     return S.lexpr(interp, name)
+
+
+def register_index(reg):
+    """MultiIndex flattening, float_product, create_nested_for_loops, ArrayAccess bound checks (C01, C08, C17)."""
+    import z3
+
+    from pyvc.contract import Const, Enum, ListOf, Rec
+    from pyvc.values import SV, SObj
+
+    INT_LEXPR = Custom(S.lexpr)
+
+    def new_mi(interp, name):
+        so = SObj(L.MultiIndex)
+        return so
+
+    for rank in range(0, 4):
+        reg.add(Contract(
+            F + "MultiIndex.__init__",
+            dict(self=Custom(new_mi), symbols=ListOf(OneOf(INT_LEXPR, Int()), rank), sizes=ListOf(Int(1), rank)),
+            ensures=[
+                # row-major flattening (Horner): ev(global_index) = flat(ev(symbols), sizes)
+                "ev(self.global_index, env) == flat([ev(s, env) for s in symbols], sizes)",
+                "len(self.symbols) == len(symbols) and self.sizes is sizes",
+            ],
+            properties=["C01", "C08", "C17", "C04"], modular=False, name=f"MultiIndex.__init__[rank {rank}]", bounded="rank <= 3",
+            mutants=[("zip(stride[1:], symbols)", "zip(stride[:-1], symbols)")] if rank == 2 else []))
+    # L-HORNER for the ranks FFCx builds: in range and injective
+    # float_product
+    for n in range(0, 4):
+        reg.add(Contract(
+            F + "float_product", dict(factors=ListOf(OneOf(Custom(S.lexpr)), n)),
+            ensures=["ev(result, env) == prod([ev(f, env) for f in factors])"],
+            properties=["C17", "C01"], modular=False, name=f"float_product[{n} factors]", bounded="<= 3 factors",
+            mutants=[("factors = [f for f in factors if not is_one_lexpr(f)]", "factors = [f for f in factors if not is_zero_lexpr(f)]")] if n == 2 else []))
